@@ -988,7 +988,8 @@ func lemmaLastEncodePrefix(opts []Option, o Option, i int) {
 // The massive (pipeline) implementations are not under contract (C10, C11 are not applicable to this technique).
 //@ func gtree.treePipeline.outputProgrammably
 //@   requires ok: pipelineTreeOK(t, cfg) && root != nil && root.hierarchy == 1
-//@   modifies Node.brnch.value, Node.brnch.path, out, wfail, defaultGrowSpreaderSimple.w, defaultSpreaderSimple.w, counter.n, encTrace, encoders, spText, errSent, ctxCancelled, splSent, splSharp, splCutOK, ctxDoneSeen, errRecv
+//@   modifies Node.brnch.value, Node.brnch.path, out, wfail, defaultGrowSpreaderSimple.w, defaultSpreaderSimple.w, counter.n, encTrace, encoders, spText, errSent, stageSpread, stageWriter, ctxCancelled, splSent, splSharp, splCutOK, ctxDoneSeen, errRecv
+//@   ensures staged [C04]: cfg.encode >= encodeJSON && cfg.encode <= encodeTOML && !cfg.dryrun ==> stageSpread == t.spreader && stageWriter == w
 //@   ensures reported [C14]: result == nil ==> errRecv == old(errRecv)
 //@   ensures dryfs [C09]: fsOps == old(fsOps) && fsFailed == old(fsFailed)
 //@   carries rootStream: rootChan
@@ -1004,7 +1005,7 @@ func lemmaLastEncodePrefix(opts []Option, o Option, i int) {
 //@   requires nn: root != nil && root.hierarchy == 1
 
 //@ contract fromRootOutput
-//@   modifies Node.brnch.value, Node.brnch.path, out, wfail, defaultGrowSpreaderSimple.w, defaultSpreaderSimple.w, counter.n, encTrace, encoders, lastConfig, spText, errSent, ctxCancelled, splSent, splSharp, splCutOK, ctxDoneSeen, errRecv
+//@   modifies Node.brnch.value, Node.brnch.path, out, wfail, defaultGrowSpreaderSimple.w, defaultSpreaderSimple.w, counter.n, encTrace, encoders, lastConfig, spText, errSent, stageSpread, stageWriter, ctxCancelled, splSent, splSharp, splCutOK, ctxDoneSeen, errRecv
 //@   ghostset lastConfig := cfg
 //@   ensures nilnode [C03]: root == nil ==> result == ErrNilNode && out == old(out) && wfail == old(wfail)
 //@   ensures notroot [C03]: root != nil && root.hierarchy != 1 ==> result == ErrNotRoot && out == old(out) && wfail == old(wfail)
@@ -1154,7 +1155,8 @@ func lemmaRawAllIsRenderAll(last, mid branchFormat, roots []*Node, i int) {
 
 //@ func gtree.treePipeline.output
 //@   requires ok: pipelineTreeOK(t, cfg)
-//@   modifies Node.children, Node.parent, Node.brnch.value, Node.brnch.path, list.List.view, list.Element.backOf, counter.n, bufio.Scanner.pos, bufio.Scanner.failed, markdown.Parser.isSharpRoot, markdown.Parser.spaces, markdown.Parser.sep, out, wfail, defaultSpreaderSimple.w, encTrace, encoders, lastForest, lnNodes, rsRoots, rsFailed, rsStopped, rsErr, gsRoots, gsFailed, gsStopped, gsErr, spRoots, spText, esFailed, errSent, ctxCancelled, splSent, splSharp, splCutOK, ctxDoneSeen, errRecv
+//@   modifies Node.children, Node.parent, Node.brnch.value, Node.brnch.path, list.List.view, list.Element.backOf, counter.n, bufio.Scanner.pos, bufio.Scanner.failed, markdown.Parser.isSharpRoot, markdown.Parser.spaces, markdown.Parser.sep, out, wfail, defaultSpreaderSimple.w, encTrace, encoders, lastForest, lnNodes, rsRoots, rsFailed, rsStopped, rsErr, gsRoots, gsFailed, gsStopped, gsErr, spRoots, spText, esFailed, errSent, stageSpread, stageWriter, ctxCancelled, splSent, splSharp, splCutOK, ctxDoneSeen, errRecv
+//@   ensures staged [C04]: cfg.encode >= encodeJSON && cfg.encode <= encodeTOML && !cfg.dryrun ==> stageSpread == t.spreader && stageWriter == w
 //@   ensures reported [C14]: result == nil ==> errRecv == old(errRecv)
 //@   ensures dryfs [C09]: fsOps == old(fsOps) && fsFailed == old(fsFailed)
 //@ func gtree.treePipeline.walk
@@ -1164,7 +1166,7 @@ func lemmaRawAllIsRenderAll(last, mid branchFormat, roots []*Node, i int) {
 //@   param callback follows walkCallback
 
 //@ contract fromMarkdownOutput
-//@   modifies Node.children, Node.parent, Node.brnch.value, Node.brnch.path, list.List.view, list.Element.backOf, counter.n, bufio.Scanner.pos, bufio.Scanner.failed, markdown.Parser.isSharpRoot, markdown.Parser.spaces, markdown.Parser.sep, out, wfail, defaultSpreaderSimple.w, encTrace, encoders, libWriter, libFailed, libCalls, lastCtxLive, lastConfig, lastForest, lnNodes, rsRoots, rsFailed, rsStopped, rsErr, gsRoots, gsFailed, gsStopped, gsErr, spRoots, spText, esFailed, errSent, ctxCancelled, splSent, splSharp, splCutOK, ctxDoneSeen, errRecv
+//@   modifies Node.children, Node.parent, Node.brnch.value, Node.brnch.path, list.List.view, list.Element.backOf, counter.n, bufio.Scanner.pos, bufio.Scanner.failed, markdown.Parser.isSharpRoot, markdown.Parser.spaces, markdown.Parser.sep, out, wfail, defaultSpreaderSimple.w, encTrace, encoders, libWriter, libFailed, libCalls, lastCtxLive, lastConfig, lastForest, lnNodes, rsRoots, rsFailed, rsStopped, rsErr, gsRoots, gsFailed, gsStopped, gsErr, spRoots, spText, esFailed, errSent, stageSpread, stageWriter, ctxCancelled, splSent, splSharp, splCutOK, ctxDoneSeen, errRecv
 //@   ghostset lastConfig := cfg
 //@   ghostset libWriter := w
 //@   ghostset libFailed := old(libFailed) || result != nil
@@ -1598,6 +1600,7 @@ func lemmaInBeforeContains(ks []string, x string, i int) {
 //@   modifies maps
 //@   use lemma lemmaInBeforeContains
 //@   ensures missingRoot [C08]: fsMissingDir(fpJoin2(dv.targetDir, specNodePath(root))) ==> result2 != nil
+//@   ensures missingList [C08]: dv.targetDir != "" && fsMissingDir(fpJoin2(dv.targetDir, specNodePath(root))) && result2 != nil && isType(result2, verifyError) ==> as(result2, verifyError).noExists == seqof(fpJoin2(dv.targetDir, specNodePath(root))) && len(as(result2, verifyError).extra) == 0
 //@   ensures lists [C08]: !fsMissingDir(fpJoin2(dv.targetDir, specNodePath(root))) && result2 == nil ==> (forall x string :: {contains(result1, x)} {specPathIn(dv.targetDir, root, x)} contains(result1, x) == (specPathIn(dv.targetDir, root, x) && !fsEntryUnder(fpJoin2(dv.targetDir, specNodePath(root)), x))) && (forall x string :: {contains(result0, x)} {fsEntryUnder(fpJoin2(dv.targetDir, specNodePath(root)), x)} contains(result0, x) == (fsEntryUnder(fpJoin2(dv.targetDir, specNodePath(root)), x) && !specPathIn(dv.targetDir, root, x)))
 //@ loop gtree.defaultVerifierSimple.verifyRoot#walk
 //@   invariant dir: $dir == fpJoin2(dv.targetDir, specNodePath(root)) && dirsFilesystem != nil && dirsMarkdown != nil && dirsFilesystem != dirsMarkdown
